@@ -186,7 +186,8 @@ pub fn check(c: &Case, obs: &mut Obs) -> Result<(), String> {
         let comps: Vec<&[u8]> = f.name.split(|b| *b == b'/').collect();
         if f.name.is_empty()
             || !m::unambiguous(&f.name)
-            || comps.iter().any(|c| c.is_empty() || *c == b"." || *c == b"..")
+            // ("." is fine as the first of several components: Path keeps a leading "./")
+            || comps.iter().enumerate().any(|(i, c)| c.is_empty() || (*c == b"." && (i > 0 || comps.len() == 1)) || *c == b"..")
             || sizes.get(&f.name).copied().unwrap_or(0) > 1
         {
             obs.excluded = true;
